@@ -96,20 +96,11 @@ mutual
     | [], _ => none
     | .mk k' ptr ty :: rest, r =>
       if k' = k then
-        match ptr, ty with
-        | false, .prim .int => specPrim tag .int r
-        | false, .prim .long => specPrim tag .long r
-        | false, .prim .enum => specPrim tag .enum r
-        | false, .prim .bool => specPrim tag .bool r
-        | false, .prim .bytes => specPrim tag .bytes r
-        | false, .prim .text => specPrim tag .text r
-        | false, .prim .time => specPrim tag .time r
-        | false, .prim .interval => none
-        | true, .prim _ => none
-        | true, .struct sd => if sd.descOk then specStruct tag sd r else none
-        | false, .struct _ => none
-        | _, .dyn _ _ => none
-        | _, .unsupported => none
+        match ty with
+        | .prim p => if ptr = true ∨ p = .interval then none else specPrim tag p r
+        | .struct sd => if ptr = true then (if sd.descOk then specStruct tag sd r else none) else none
+        | .dyn _ _ => none
+        | .unsupported => none
       else specDyn tag prev k rest r
   /-- a structure item: header with the expected tag and type 1, payload that fits, fields matching the whole payload -/
   def specStruct (tag : Nat) : SD → Bytes → Option (Val × Bytes)
